@@ -229,3 +229,72 @@ Theorem C16_checker_down_script : forall target ce,
   = (lit "down " ++ show_Z (Z.max (target - 3) 0), (Z.max (target - 3) 0 + 3)%Z).
 Proof. exact checker_script_down. Qed.
 Print Assumptions C16_checker_down_script.
+
+(* ---- recursion through a command substitution inside an expression (the checker's kind 7) ----
+   `proc sum {n} {if {$n <= 0} {rec deep; return 0}; expr {1 + [sum [expr {$n - 1}]]}}`: a command
+   substitution inside `expr` is evaluated at the level of the body it stands in, so `sum k` needs
+   k+3 levels like `down k`: it succeeds iff k+3 <= N, with the recorder reached exactly then;
+   otherwise the catchable error, every frame popped, the level back at 0. *)
+From Molt Require Import Proofs.DepthFacts3.
+
+Theorem C16_sum_exact : forall U (N : N) (k : Z) (fuel : nat) st,
+  uni_ok U ->
+  i_levels st = 0 -> i_limit st = N -> i_scopes st <> [] ->
+  counting_natives st ->
+  assoc_get (lit "sum") (i_cmds st) = Some sum_proc ->
+  (0 <= k <= i64_max)%Z -> (2 * Z.to_nat k + 3 <= fuel)%nat ->
+  (Z.to_N k + 3 <= N ->
+     eval U fuel st (lit "sum " ++ show_Z k)
+     = (set_trace st (deep_call :: i_trace st), Ok (sum_value k)))
+  /\
+  (N < Z.to_N k + 3 -> errvars_ok (i_scopes st) ->
+     exists st' e,
+       eval U fuel st (lit "sum " ++ show_Z k) = (st', Err e)
+       /\ x_code e = CError /\ x_value e = VStr too_many_nested
+       /\ i_levels st' = 0 /\ i_limit st' = N /\ i_cmds st' = i_cmds st
+       /\ i_trace st' = i_trace st
+       /\ length (i_scopes st') = length (i_scopes st) /\ errvars_ok (i_scopes st')).
+Proof. exact DepthFacts3.C16_sum_exact. Qed.
+Print Assumptions C16_sum_exact.
+
+(* the value returned: the text of k (`return 0` gives the string, `expr` the integer) *)
+Theorem C16_sum_value_text : forall k, (0 <= k)%Z -> as_str (sum_value k) = show_Z k.
+Proof.
+  intros k Hk. unfold sum_value. destruct (k =? 0)%Z eqn:E.
+  - apply Z.eqb_eq in E. subst k. reflexivity.
+  - reflexivity.
+Qed.
+Print Assumptions C16_sum_value_text.
+
+(* on the state the checker builds, for the whole script text of kind 7 (definition, then call) *)
+Theorem C16_harness_sum : forall (N : N) (k : Z) (fuel : nat),
+  (0 <= k <= i64_max)%Z -> (2 * Z.to_nat k + 4 <= fuel)%nat ->
+  (Z.to_N k + 3 <= N ->
+     exists st',
+       eval std_uni fuel (checker_state N) (sum_script_text k) = (st', Ok (sum_value k))
+       /\ i_levels st' = 0 /\ i_limit st' = N /\ i_trace st' = [deep_call]
+       /\ sc_current (i_scopes st') = 0%nat
+       /\ assoc_get sum_name (i_cmds st') = Some sum_proc)
+  /\
+  (N < Z.to_N k + 3 ->
+     exists st' e,
+       eval std_uni fuel (checker_state N) (sum_script_text k) = (st', Err e)
+       /\ x_code e = CError /\ x_value e = VStr too_many_nested
+       /\ i_levels st' = 0 /\ i_limit st' = N /\ i_trace st' = []
+       /\ sc_current (i_scopes st') = 0%nat).
+Proof. exact DepthFacts3.C16_harness_sum. Qed.
+Print Assumptions C16_harness_sum.
+
+Theorem C16_checker_sum_script : forall (N : N) (target : Z) (ce : bool) (fuel : nat),
+  let s := fst (Molt.Check.C16.script_for 7 target ce) in
+  let need := snd (Molt.Check.C16.script_for 7 target ce) in
+  (need <= i64_max)%Z -> (2 * Z.to_nat need <= fuel)%nat ->
+  ((need <= Z.of_N N)%Z ->
+     exists st', eval std_uni fuel (checker_state N) s = (st', Ok (sum_value (need - 3)))
+                 /\ i_levels st' = 0 /\ i_trace st' = [deep_call] /\ sc_current (i_scopes st') = 0%nat)
+  /\ ((Z.of_N N < need)%Z -> exists st' e, eval std_uni fuel (checker_state N) s = (st', Err e)
+                   /\ x_code e = CError /\ x_value e = VStr too_many_nested
+                   /\ i_levels st' = 0 /\ i_limit st' = N /\ i_trace st' = []
+                   /\ sc_current (i_scopes st') = 0%nat).
+Proof. exact DepthFacts3.C16_checker_sum_script. Qed.
+Print Assumptions C16_checker_sum_script.
